@@ -135,11 +135,12 @@ def _abs(a):
 def _sign(a):
     if is_sym(a):
         # fork to a concrete sign (keeps everything downstream linear; np.sign is applied to scalars in eqsig)
+        one = 1 if S.is_int_valued(a) else 1.0
         if bool(a > 0):
-            return 1.0
+            return one
         if bool(a < 0):
-            return -1.0
-        return 0.0
+            return -one
+        return one * 0
     return float(np.sign(a)) if isinstance(a, float) else int(np.sign(a))
 
 
@@ -255,13 +256,39 @@ except Exception:   # pragma: no cover
     pass
 
 
-class SymArr(np.ndarray):
-    __array_priority__ = 100
 
-    def __new__(cls, data):
+
+
+
+INT_KEEP = {np.add, np.subtract, np.multiply, np.negative, np.positive, np.absolute, np.sign, np.maximum, np.minimum,
+            np.square, np.conjugate}
+
+
+def _operand_is_int(x):
+    if isinstance(x, SymArr):
+        return x.kind == 'i'
+    if isinstance(x, np.ndarray):
+        return x.dtype.kind in 'iu'
+    if isinstance(x, (list, tuple)):
+        return all(_operand_is_int(e) for e in x)
+    return S.is_int_valued(x)
+
+
+class SymArr(np.ndarray):
+    """kind 'f': real valued (default); kind 'i': integer dtype semantics (results of integer arithmetic stay
+    integer, stores truncate toward zero like NumPy's unsafe cast, in-place float results are rejected)."""
+    __array_priority__ = 100
+    kind = 'f'
+
+    def __new__(cls, data, kind='f'):
         a = _obj_array(data) if not isinstance(data, np.ndarray) else (
             data.astype(object) if data.dtype != object else data.copy())
-        return a.view(cls)
+        r = a.view(cls)
+        r.kind = kind
+        return r
+
+    def __array_finalize__(self, obj):
+        self.kind = getattr(obj, 'kind', 'f')
 
     # -- ufuncs -------------------------------------------------------------------
     def __array_ufunc__(self, ufunc, method, *inputs, out=None, **kw):
@@ -306,9 +333,15 @@ class SymArr(np.ndarray):
         else:
             raise SymUnsupported('ufunc method %s' % method)
         res = wrap(res)
+        rk = 'i' if (ufunc in INT_KEEP and all(_operand_is_int(x) for x in inputs)) else 'f'
+        if isinstance(res, SymArr):
+            res.kind = rk
         if out is not None:
             o = out[0] if isinstance(out, tuple) else out
             if o is not None:
+                if isinstance(o, SymArr) and o.kind == 'i' and rk != 'i':
+                    raise TypeError("Cannot cast ufunc '%s' output from dtype('float64') to dtype('int64') with casting "
+                                    "rule 'same_kind'" % ufunc.__name__)
                 if isinstance(o, np.ndarray) and o.dtype != object:
                     if isinstance(res, np.ndarray) and contains_sym(res):
                         # `float_array += symbolic`: the target cannot hold symbolic values; Python rebinds the
@@ -329,7 +362,12 @@ class SymArr(np.ndarray):
         impl = getattr(func, '_implementation', None)
         if impl is None:
             raise SymUnsupported('array function %r' % func)
-        return wrap(impl(*args, **kwargs))
+        res = wrap(impl(*args, **kwargs))
+        if isinstance(res, SymArr) and func in KIND_KEEPING:
+            arrs = [x for x in _iter_arrays(args)]
+            if arrs and all(_operand_is_int(x) for x in arrs):
+                res.kind = 'i'
+        return res
 
     # -- indexing: allow SymArr indices of concrete ints/bools, fork on symbolic bools --
     def __getitem__(self, idx):
@@ -339,6 +377,8 @@ class SymArr(np.ndarray):
     def __setitem__(self, idx, val):
         if isinstance(val, np.ndarray) and val.dtype != object:
             val = val.astype(object)
+        if self.kind == 'i':
+            val = _trunc_store(val)
         np.ndarray.__setitem__(self, _fix_index(idx), val)
 
     # -- methods that would otherwise force Python truth values --------------------
@@ -350,6 +390,10 @@ class SymArr(np.ndarray):
 
     def astype(self, dtype, *a, **k):
         if dtype in (float, np.float64, object, 'float', 'float64', complex, np.complex128):
+            r = self.copy()
+            r.kind = 'f'
+            return r
+        if dtype in (int, np.int64, np.intp, 'int', 'int64') and self.kind == 'i':
             return self.copy()
         if not contains_sym(self):
             return np.array(self.view(np.ndarray).tolist()).astype(dtype)
@@ -386,6 +430,17 @@ class SymArr(np.ndarray):
         return np.absolute(self)
 
 
+def _trunc_store(val):
+    """what storing `val` into an integer array keeps (unsafe cast: truncation toward zero)."""
+    if isinstance(val, np.ndarray):
+        return _frompy(S.sym_trunc_merged, 1)(val.view(np.ndarray) if val.dtype == object else val.astype(object))
+    if isinstance(val, (list, tuple)):
+        return [_trunc_store(v) for v in val]
+    if isinstance(val, (SB, bool, np.bool_)):
+        return val
+    return S.sym_trunc_merged(val)
+
+
 def _reduce_extreme(a, axis, keepdims, is_max):
     if axis is None:
         if a.size == 0:
@@ -409,6 +464,21 @@ def _reduce_extreme(a, axis, keepdims, is_max):
     if out.ndim == 0:
         return out[()]
     return out
+
+
+def _iter_arrays(args):
+    for x in args:
+        if isinstance(x, np.ndarray):
+            yield x
+        elif isinstance(x, (list, tuple)):
+            for y in _iter_arrays(x):
+                yield y
+        elif isinstance(x, (SR, int, float, np.number)) and not isinstance(x, (bool, np.bool_)):
+            yield x
+
+
+KIND_KEEPING = {np.insert, np.concatenate, np.take, np.diff, np.ediff1d, np.cumsum, np.flip, np.flipud, np.pad, np.tril,
+                np.triu, np.sum, np.append, np.delete, np.reshape, np.ravel, np.copy, np.sort, np.roll, np.repeat, np.tile}
 
 
 def _fix_index(idx):
